@@ -300,6 +300,27 @@ func (fr *Frame) goHasNoEffect(g *ssa.Go) bool {
 	return ct.HasAssigns && len(ct.Assigns) == 0
 }
 
+// goAssigns: the components the call started by a go statement may write, when its contract lists them.
+func (fr *Frame) goAssigns(g *ssa.Go) ([]string, bool) {
+	ex := fr.ex
+	c := g.Common()
+	var ct *Contract
+	if c.IsInvoke() {
+		ct = ex.W.contracts[ifaceKey(c.Value.Type(), c.Method.Name())]
+	} else if callee := c.StaticCallee(); callee != nil {
+		ct = ex.W.contracts[fnKey(callee)]
+	}
+	if ct == nil || !ct.HasAssigns {
+		return nil, false
+	}
+	for _, a := range ct.Assigns {
+		if strings.HasPrefix(a, "*") {
+			return nil, false
+		}
+	}
+	return ct.Assigns, true
+}
+
 // errClauses: contract clauses that could not be evaluated on the current tree, with the reason.
 var errClauses = map[*Clause]bool{}
 var errClauseMsg = map[*Clause]string{}
